@@ -301,14 +301,18 @@ impl WriteAheadLog {
         self.header.metadata_mut().wal_header.global_last_lsn = Some(lsn);
         self.header.metadata_mut().wal_header.total_entries += 1;
 
-        // Try to write to block zero first
+        // Try to write to block zero first. Block zero only takes records while no numbered
+        // block exists yet: the reader returns block zero before the numbered blocks, so a record
+        // placed there later would be read back out of order.
         if self.current_block.is_none() {
-            if self.header.available_space() >= record_size {
+            let only_block_zero = self.header.metadata().wal_header.total_blocks <= 1;
+            if only_block_zero && self.header.available_space() >= record_size {
                 self.header.try_push(lsn, record)?;
                 return Ok(());
             }
-            // Block zero is full, create first current_block
-            self.current_block = Some(WalBlock::new(self.block_size));
+            // Block zero is full (or already followed by numbered blocks): open the next numbered block
+            let next_id = self.get_next_block();
+            self.current_block = Some(WalBlock::alloc(next_id, self.block_size));
         }
 
         // Write to current_block
@@ -355,31 +359,20 @@ impl WriteAheadLog {
     }
 
     pub fn perform_flush(&mut self) -> io::Result<()> {
-        // Block 0 always exists, additional blocks start at index 1
-        let mut block_number: u64 = 1;
-        let mut write_offset = self.block_size as u64;
-
-        // Flush queued blocks
+        // Block 0 always exists. Every numbered block lives at [block_number] * [block_size], so
+        // blocks written by an earlier flush stay where they are.
         while let Some(block) = self.flush_queue.pop_front() {
+            let write_offset = block.metadata().block_number * self.block_size as u64;
             self.file.seek(SeekFrom::Start(write_offset))?;
             self.file.write_all(block.as_ref())?;
-            block_number += 1;
-            write_offset += self.block_size as u64;
         }
 
-        // Flush current block if it has data
+        // Flush the current block too. It stays the current block: later records go on filling it
+        // and the next flush rewrites it in place.
         if let Some(ref block) = self.current_block {
-            if block.metadata().used_bytes > 0 {
-                self.file.seek(SeekFrom::Start(write_offset))?;
-                self.file.write_all(block.as_ref())?;
-                block_number += 1;
-            }
-        }
-
-        // Update header metadata
-        self.header.metadata_mut().wal_header.total_blocks = block_number;
-
-        if let Some(block) = self.current_block.take() {
+            let write_offset = block.metadata().block_number * self.block_size as u64;
+            self.file.seek(SeekFrom::Start(write_offset))?;
+            self.file.write_all(block.as_ref())?;
             self.header.metadata_mut().wal_header.last_block_used =
                 block.metadata().used_bytes as u32;
         } else {
@@ -387,7 +380,8 @@ impl WriteAheadLog {
                 self.header.metadata().block_header.used_bytes as u32;
         }
 
-        // Write block zero (siempre al principio)
+        // Write block zero last: its [total_blocks] (kept up to date by [get_next_block]) only
+        // covers blocks that are on disk by now.
         self.file.seek(SeekFrom::Start(0))?;
         self.file.write_all(self.header.as_ref())?;
 
